@@ -11,8 +11,11 @@ Inductive router := RProvider | RLegacy.
           (ClientCredentials-, TokenExchange-, DeviceAuthorizationStorage);
    SMax = additionally CanTerminateSessionFromRequest, CanGetPrivateClaimsFromRequest,
           TokenExchangeTokensVerifierStorage, JWTProfileTokenStorage;
-   SMin = only the three grant storages (no CanSetUserinfoFromRequest) *)
-Inductive storage := SStd | SMax | SMin.
+   SMin = only the three grant storages (no CanSetUserinfoFromRequest);
+   SKeep = the interfaces of SStd, but a failing call has done its work before it reports the
+           failure: its results (and side effects) come back together with the error.  The
+           handlers must not look at them, so the programs are those of SStd. *)
+Inductive storage := SStd | SMax | SMin | SKeep.
 Definition is_max (sv : storage) : bool := match sv with SMax => true | _ => false end.
 Definition is_min (sv : storage) : bool := match sv with SMin => true | _ => false end.
 
@@ -29,14 +32,15 @@ Definition jwt_at (c : client) : bool :=
 Definition has_secret (c : client) : bool :=
   match auth_of c with ABasic | APost => true | _ => false end.
 
-Inductive rmode := MDefault | MFormPost | MQuery.                   (* response_mode *)
+Inductive rmode := MDefault | MFormPost | MQuery | MFragment.       (* response_mode *)
+Inductive rtype := TCode | TIDToken | TIDTokenToken.               (* response_type: code, id_token, id_token token *)
 Inductive subj := SubjJwtAT | SubjIDToken | SubjRefresh.           (* subject_token_type *)
 Inductive want := WantAccess | WantRefresh | WantID.               (* requested_token_type *)
 Inductive revtok := RevAccess | RevRefresh.                        (* what is being revoked *)
 Inductive endvar := EndHint | EndClientOnly | EndBare.             (* end_session parameters *)
 
 Inductive flow :=
-| FAuthorize (c : client) (hint : bool)          (* GET /authorize [id_token_hint] *)
+| FAuthorize (c : client) (hint : bool) (rt : rtype) (m : rmode)   (* GET /authorize [id_token_hint] *)
 | FAuthorizeUnregistered (c : client)            (* GET /authorize, redirect_uri not registered *)
 | FCallbackCode (c : client) (m : rmode)         (* /authorize/callback, response_type=code *)
 | FCallbackImplicit (c : client) (with_at : bool) (m : rmode)  (* id_token [token] *)
@@ -333,7 +337,7 @@ Definition h_ready (r : router) : prog :=
 
 Definition handler (r : router) (sv : storage) (f : flow) : prog :=
   match f with
-  | FAuthorize _ hint => h_authorize r hint
+  | FAuthorize _ hint _ _ => h_authorize r hint
   | FAuthorizeUnregistered _ => h_authorize_unregistered r
   | FCallbackCode _ m => h_callback_code m
   | FCallbackImplicit c a m => h_callback_implicit sv c a m
@@ -351,6 +355,15 @@ Definition handler (r : router) (sv : storage) (f : flow) : prog :=
   | FKeys => h_keys r
   | FDiscovery => h_discovery
   | FReady => h_ready r
+  end.
+
+(* the same flow with another response_mode (flows without one are unchanged) *)
+Definition set_mode (f : flow) (m : rmode) : flow :=
+  match f with
+  | FAuthorize c h rt _ => FAuthorize c h rt m
+  | FCallbackCode c _ => FCallbackCode c m
+  | FCallbackImplicit c a _ => FCallbackImplicit c a m
+  | _ => f
   end.
 
 (* the flow variants the fixture can drive (the client has what the request needs) *)
